@@ -444,6 +444,8 @@ def run(chk):
         model_part(chk, pid, rng, 4000 if thorough else 1200)
     if pid == 'C04':
         views_part(chk, rng, 3000 if thorough else 500)
+    if pid == 'C01':
+        oracle_part(chk, rng, 3000 if thorough else 500)
     chk.count('abs-runs', evaluations=len(runs), nontrivial=nontriv, traces=len(runs), tlc_enumerated=n_tlc,
               events=sum(len(x['events']) for x in runs))
     ex = next((x for x in runs if nontrivial(pid, x)), runs[0])
@@ -559,6 +561,59 @@ def geo_part(chk, pid, rng, n, plan):
               continue_with_distance_calls=sum(1 for r in runs for e in r['events'] if e['op'] == 'cwd'))
 
 
+def oracle_part(chk, rng, n):
+    """C01 on the real Simple / Distance matchers: weights extracted by evaluating the model functions directly,
+    optimum computed by TLC's walk enumeration, compared with the recorded result of match()."""
+    runs = []
+    for i in range(n):
+        inst = geom.gen_instance(rng, maxn=5, maxT=4, G=rng.choice([2, 3]))
+        cf = geom.gen_config(rng, allow=('nodes', 'cuts'))
+        cf.update(ne=False, W=0, avoid_goingback=False)
+        if i % 2:
+            cf['max_dist_init'] = None if cf['max_dist'] is None else 1.0e6      # unbounded initial radius in half of the runs
+        itab, scf = geom.extract_tables(inst, cf)
+        evs, m = geom.run_geo(inst, cf, geom.Conc(), full=True)
+        o = evs[0]
+        ev = {k: o[k] for k in ('op', 'arg', 'w', 'unique', 'exc', 'states', 'idx', 'early', 'path', 'lat', 'now',
+                                'onlynodes', 'onlynodes_exc', 'snaps')}
+        ev['aux'] = {'neoff': NOAUX, 'unpruned': NOAUX, 'wide': NOAUX, 'oneshot': NOAUX}
+        ev['dangling'] = []
+        runs.append({'tid': 400000 + i, 'inst': itab, 'cf': scf, 'events': [ev], 'geo': {'inst': inst, 'cf': cf}})
+    verdicts = validate(chk, [{k: v for k, v in r.items() if k != 'geo'} for r in runs], {'C01', 'SKIP'}, 'C01_real')
+    skipped = nontriv = 0
+    for run_ in runs:
+        v = verdicts[run_['tid']]
+        skipped += bool(v.get('SKIP'))
+        nontriv += len(run_['events'][0]['path']) >= 2
+        for x in v.get('C01', []):
+            chk.violation(f'real {run_["geo"]["cf"]["cls"]} matcher: {x["clause"]} (optimum by walk enumeration over the extracted weights)',
+                          {'kind': 'geo-oracle', 'inst': run_['geo']['inst'], 'cf': run_['geo']['cf'], 'clause': x['clause']},
+                          sig={'clause': x['clause'], 'family': 'geo-oracle',
+                               'start_candidate_dropped_by_prefilter': prefilter_dropped_start(run_)})
+    chk.count('real-matcher-optimality', evaluations=len(runs), nontrivial=nontriv, traces=len(runs), skipped_nonrobust=skipped)
+
+
+def prefilter_dropped_start(run_):
+    """signature of F-inmem-prefilter seen through the matcher: an admissible start edge (within the initial radius) is
+    missing from the first lattice column and its start node lies outside the box around the first observation"""
+    inst, cf = run_['geo']['inst'], run_['geo']['cf']
+    if not cf['only_edges']:
+        return False
+    mdi = cf['max_dist_init'] if cf['max_dist_init'] is not None else cf['max_dist']
+    if mdi is None:
+        return False
+    o0 = inst['path'][0]
+    lat0 = run_['events'][0]['lat']
+    have = {tuple(e['st']) for e in (lat0[0][0] if lat0 and lat0[0] else [])}
+    for row in run_['inst']['tab']:
+        st = tuple(row['st'])
+        if len(st) == 2 and row['dE'][0] == 0 and st not in have:
+            a = inst['coord'][st[0]]
+            if abs(a[0] - o0[0]) > mdi or abs(a[1] - o0[1]) > mdi:
+                return True
+    return False
+
+
 def views_part(chk, rng, n):
     """read-only views of finished matches (beyond the listed properties): recorded answers of the real library
     validated by TLC against spec/Views.tla; mismatches are reported as EXTRA-DRIFT (never as a violation of a
@@ -651,6 +706,53 @@ def slim_run(run_):
 def replay(pid, case):
     c = case['case']
     chk = common.Check(pid, 'quick', 0)
+    kind = c.get('kind', 'abs')
+    if kind == 'model':
+        inst = c['inst']
+        inst['coord'] = {int(k): v for k, v in inst['coord'].items()}
+        rec, exc = geom.model_record(1, inst, c['cf'], [tuple(o) for o in c['ops']])
+        path = os.path.join(common.scratch(), 'models_replay.json')
+        with open(path, 'w') as f:
+            json.dump(common.nonull({'runs': [rec]}), f)
+        r = run_tlc('Models', 'Models.cfg', workers=2, timeout=600, env={'TRACE_FILE': path})
+        v = r.json[0]
+        bad = v['path_clause'] or v['any_clause']
+        if bad and not (pid == 'C05' and bad not in MODEL_GEOMETRY):
+            print(f'VIOLATION property={pid} replay=(given)   # {bad}')
+            return 1
+        print('replay: every lattice entry conforms to the documented model')
+        return 0
+    if kind in ('geo', 'geo-oracle'):
+        inst = c['inst']
+        inst['coord'] = {int(k): v for k, v in inst['coord'].items()}
+        if kind == 'geo':
+            run_ = record_geo(1, inst, c['cf'], [tuple(x) for x in c['ops']], c.get('unique', False), PLAN[pid]['aux'])
+            want = {pid}
+        else:
+            itab, scf = geom.extract_tables(inst, c['cf'])
+            evs, m = geom.run_geo(inst, c['cf'], geom.Conc(), full=True)
+            o = evs[0]
+            ev = {k: o[k] for k in ('op', 'arg', 'w', 'unique', 'exc', 'states', 'idx', 'early', 'path', 'lat', 'now',
+                                    'onlynodes', 'onlynodes_exc', 'snaps')}
+            ev['aux'] = {'neoff': NOAUX, 'unpruned': NOAUX, 'wide': NOAUX, 'oneshot': NOAUX}
+            ev['dangling'] = []
+            run_ = {'tid': 1, 'inst': itab, 'cf': scf, 'events': [ev], 'geo': {'inst': inst, 'cf': c['cf']}}
+            want = {'C01', 'SKIP'}
+        v = validate(chk, [{k: x for k, x in run_.items() if k != 'geo'}], want, 'replay')[1]
+        bad = 0
+        for x in v.get(pid, []):
+            sig = {'clause': x['clause'], 'family': kind}
+            if kind == 'geo-oracle':
+                sig['start_candidate_dropped_by_prefilter'] = prefilter_dropped_start(run_)
+            k = chk.match_known(sig)
+            if k is not None:
+                print(f"KNOWN-FINDING: property={pid} {k['id']}: {k['what']}")
+            else:
+                bad += 1
+                print(f'VIOLATION property={pid} replay=(given)   # clause {x["clause"]} at event {x["at"]}')
+        if not bad:
+            print('replay: trace accepted' if not v.get(pid) else 'replay: only recorded findings')
+        return 1 if bad else 0
     inst = absm.inst_from_tlc(c['inst'])
     run_ = record_abs(1, inst, c['cf'], [tuple(x) for x in c['ops']], c.get('unique', False), PLAN[pid]['aux'])
     v = validate(chk, [run_], {pid}, 'replay')[1]
@@ -664,7 +766,5 @@ def replay(pid, case):
             print(f'VIOLATION property={pid} replay=(given)   # clause {x["clause"]} at event {x["at"]}')
     if bad:
         return 1
-    if v.get(pid):
-        return 0
-    print('replay: trace accepted')
+    print('replay: trace accepted' if not v.get(pid) else 'replay: only recorded findings')
     return 0
